@@ -366,6 +366,15 @@ func (e *Enc) lookupLocal(fr *Frame, name string, b *ssa.BasicBlock, idx int, ph
 				if _, isVar := obj.(*types.Var); !isVar {
 					continue
 				}
+				// a variable that lives in a cell (address taken / captured) is
+				// read from the cell, whatever kind of reference was found first
+				if cell := cellOf(fr.fn, obj); cell != nil && !t.IsAddr {
+					if v, ok := fr.vals[cell]; ok {
+						pt := cell.Type().Underlying().(*types.Pointer)
+						pl := e.placeOf(v, pt.Elem())
+						return CE{T: e.getPlace(st, pl), Typ: pt.Elem(), P: pl}, true
+					}
+				}
 				if t.IsAddr {
 					v, ok := fr.vals[t.X]
 					if !ok {
